@@ -235,6 +235,20 @@ theorem private_decl_rejected (ds : List MDecl) (key name : String) (imp : Impor
     simpa [moduleExports] using this
   · exact hname
 
+/-- A declaration that is not `pub` (and is not a variant of a `pub` enum) stays unknown in the importing file even
+when the file imports something else from the module: nothing private leaks through `import_module`. -/
+theorem private_unknown_by_bare_name (key : String) (ds : List MDecl) (name : String)
+    (hnot : ¬ ∃ d ∈ ds, d.isPub = true ∧ (name = d.name ∨ (d.kind = .enum_ ∧ name ∈ d.variants))) :
+    bareKnown [moduleExports key ds] name = false := by
+  have : name ∉ exportedNames ds := fun h => hnot ((exported_iff ds name).1 h)
+  simp [bareKnown, moduleExports, this]
+
+/-- … and everything `pub` is known. -/
+theorem public_known_by_bare_name (key : String) (ds : List MDecl) (d : MDecl) (hd : d ∈ ds) (hp : d.isPub = true) :
+    bareKnown [moduleExports key ds] d.name = true := by
+  have : d.name ∈ exportedNames ds := (exported_iff ds d.name).2 ⟨d, hd, hp, Or.inl rfl⟩
+  simp [bareKnown, moduleExports, this]
+
 example : exportedNames [⟨.enum_, "Hidden", false, ["Circle", "Square"]⟩, ⟨.enum_, "Color", true, ["Red"]⟩,
     ⟨.function, "describe", true, []⟩, ⟨.const, "K", false, []⟩] = ["Color", "Red", "describe"] := by decide
 
